@@ -252,10 +252,85 @@ def _lemma_total():
 LEMMAS = [Lemma("bin_widths_prefix_sum_step", _lemma_prefix, "induction step of sum_{j<n} dtheta_j = theta_n - theta_0 on an ascending grid with gaps < 180"),
           Lemma("bin_widths_sum_to_360", _lemma_total, "with the prefix identity (base case n=0 is the empty sum): total of the wrapped bin widths is 360")]
 
+# ---- operations.integrate_spectral_data: the same quadrature for an arbitrary DataArray on the spectral grid
+def _p_isd(dims):
+    def p(mk):
+        npnt, nf, nd = mk.size("np"), mk.size("nf"), mk.size("nd")
+        f, th = mk.array("f", (nf,)), mk.array("theta", (nd,))
+        data = xr.mk_xa(mk.st, (P, NAME_F, NAME_D), mk.st.deref(mk.array("X", (npnt, nf, nd))), mk.st.deref(mk.array("X_nan", (npnt, nf, nd), "bool")),
+                        {NAME_F: mk.st.deref(f), NAME_D: mk.st.deref(th)})
+        return {"dataset": data, "dims": dims if isinstance(dims, str) else mk.st.alloc(list(dims), "list")}
+    return p
+
+
+class _XV:
+    """view of the DataArray argument in both modes"""
+
+    def __init__(self, x):
+        self.sym = hasattr(x, "_o")
+        if self.sym:
+            self.arr, self.nan = x.arr, x.nan
+            self.f, self.theta = x.coords[NAME_F], x.coords[NAME_D]
+            self.np_, self.nf, self.nd = self.arr.shape
+        else:
+            import numpy as np
+            self.v = np.asarray(x.values, dtype="float64")
+            self.f, self.theta = x[NAME_F].values, x[NAME_D].values
+            self.np_, self.nf, self.nd = self.v.shape
+
+    def val(self, p, i, j):
+        return self.arr[p, i, j] if self.sym else float(self.v[p, i, j])
+
+    def isnan(self, p, i, j):
+        if self.sym:
+            return self.nan[p, i, j]
+        import math
+        return math.isnan(float(self.v[p, i, j]))
+
+
+def _isd_post(a, r):
+    X = _XV(a.dataset)
+    dims = a.dims if isinstance(a.dims, (str,)) else list(a.dims)
+    dims = [dims] if isinstance(dims, str) else dims
+    sp = type("S", (), {"theta": X.theta, "nd": X.nd})
+    if hasattr(r, "_o"):
+        get = lambda *ix: r.arr[ix]
+    else:
+        import numpy as np
+        rv = np.asarray(r.values, dtype="float64")
+        get = lambda *ix: float(rv[ix])
+
+    def trap(g):
+        return Sum(0, X.nf - 1, lambda i: (g(i) + g(i + 1)) / 2 * (X.f[i + 1] - X.f[i]))
+    if dims == [NAME_D]:
+        return forall(0, X.np_, lambda p: forall(0, X.nf, lambda i: eq(get(p, i), Sum(0, X.nd, lambda j: fill0(X.val(p, i, j) * dtheta(sp, j), X.isnan(p, i, j))),
+                                                                       rtol=1e-9, atol=1e-12), "i"), "p")
+    if dims == [NAME_F]:
+        return forall(0, X.np_, lambda p: forall(0, X.nd, lambda j: eq(get(p, j), trap(lambda i: fill0(X.val(p, i, j), X.isnan(p, i, j))), rtol=1e-9, atol=1e-12), "j"), "p")
+    return forall(0, X.np_, lambda p: eq(get(p), Sum(0, X.nd, lambda j: trap(lambda i: fill0(X.val(p, i, j), X.isnan(p, i, j))) * dtheta(sp, j)), rtol=1e-9, atol=1e-12), "p")
+
+
+def _wit_isd(dims):
+    def w():
+        import numpy as np
+        s2 = _wit_spectra()[1]
+        return (str(dims), {"dataset": s2.dataset[NAME_E], "dims": dims})
+    return w
+
+
+ISD_DIMS = [NAME_D, NAME_F, [NAME_F, NAME_D]]
+integrate_spectral_data_c = Contract(
+    "wavespectra/operations.py::integrate_spectral_data", instances=[(str(d_), _p_isd(d_)) for d_ in ISD_DIMS] + [("bad_dimension", _p_isd("time"))],
+    requires=[("dims", lambda a: And(*[n >= (1 if k == 2 else 0) for k, n in enumerate(_XV(a.dataset).arr.shape)]) if hasattr(a.dataset, "_o") else True)],
+    ensures=[("same_quadrature_as_the_spectrum_methods", _isd_post, {str(d_) for d_ in ISD_DIMS})],
+    raises={"ValueError": lambda a: a.dims == "time"},
+    witness=[_wit_isd(d_) for d_ in ISD_DIMS],
+)
+
 import copy as _copy
 dstep_c = _copy.copy(direction_step)
 e_c = _copy.copy(e_2d)
-CONTRACTS = [dstep_c, e_c, a1_c, b1_c, a2_c, b2_c, as_frequency_spectrum, e_follows_data]
+CONTRACTS = [dstep_c, e_c, a1_c, b1_c, a2_c, b2_c, as_frequency_spectrum, e_follows_data, integrate_spectral_data_c]
 TRUSTED = ["xarray library contracts of pyvc/models/xr.py", "cos/sin are uninterpreted (only their identity on equal arguments is used)",
            "direction_step and e(f) contracts are verified in C01 and used here at call sites"]
 EXPLANATION = ("a1,b1,a2,b2 of a 2D spectrum proved equal to the weighted directional sums over e(f) with the wrapped bin widths; the 2D->1D conversion proved to carry "
